@@ -343,7 +343,7 @@ def handle (j : Json) : M Json := do
       let cols := Solve.columns t
       let kvJ : List (String × Int) → Json := fun l => Json.arr (l.map (fun (i, v) => Json.arr #[Json.str i, ofInt v])).toArray
       pure (Json.mkObj [("cols", Json.arr (cols.map (fun c => Json.arr #[Json.str c.id, c.isLeaf, c.gen])).toArray),
-                        ("objs", Json.arr (objs.map (fun o => intsJ (Solve.objectiveVec cols o))).toArray),
+                        ("objs", Json.arr ((Solve.objectives cols objs).map intsJ).toArray),
                         ("solve", kvJ (Solve.solveResult cols sol iv)), ("select", kvJ (Solve.selectResult cols sol ol))])
   | "add_seq" => do
       let c ← parseTree (← fld j "cfg")
